@@ -5,7 +5,7 @@ From Coq Require Import List NArith Bool Arith Lia.
 From Tink Require Import Bytes SlhdsaSupport SlhdsaAddr SlhdsaBase SlhdsaWots SlhdsaXmss SlhdsaFors SlhdsaHt
   Slhdsa SlhdsaHash SlhdsaParams SlhdsaSpec SlhdsaListProofs
   SlhdsaSupportProofs SlhdsaWotsProofs SlhdsaXmssProofs SlhdsaForsProofs SlhdsaHtProofs SlhdsaProofs SlhdsaParamsProofs
-  SlhdsaFipsSupport SlhdsaFipsLayers SlhdsaFipsTop SlhdsaFipsHash ConstsTieC16.
+  SlhdsaFipsSupport SlhdsaFipsLayers SlhdsaFipsTop SlhdsaFipsHash ConstsTieC16 SlhdsaForgery.
 From Tink Require SlhdsaFips.
 Import ListNotations.
 Open Scope N_scope.
@@ -109,3 +109,49 @@ Proof.
   exists sig. split; [exact A|exact B].
 Qed.
 
+
+(* ---------- the premises of the modified-signature reduction for the twelve sets ---------- *)
+Definition digits_wfb (P : params) : bool :=
+  Nat.eqb (p_len1 P * p_lgw P) (8 * p_n P) && Nat.leb 1 (p_lgw P) && Nat.leb (p_lgw P) 25 && Nat.leb (p_len2 P * p_lgw P) 32.
+
+Lemma digits_wfb_spec P : digits_wfb P = true -> digits_wf P.
+Proof.
+  unfold digits_wfb, digits_wf. intros H. repeat (apply andb_prop in H; destruct H as [H ?]).
+  apply Nat.eqb_eq in H. repeat match goal with X : Nat.leb _ _ = true |- _ => apply Nat.leb_le in X end. lia.
+Qed.
+
+Lemma all_sets_digits_wf : forall s, In s all_sets -> digits_wf (fst s).
+Proof.
+  assert (A : forallb (fun s => digits_wfb (fst s)) all_sets = true) by (vm_compute; reflexivity).
+  intros s Hs. apply digits_wfb_spec. rewrite forallb_forall in A. exact (A s Hs).
+Qed.
+
+Lemma mk_hashes_wfb (sha256 sha512 : bytes -> bytes) (shake256 : bytes -> nat -> bytes) (hmac256 hmac512 : bytes -> bytes -> bytes) :
+  (forall m, wfb (sha256 m)) -> (forall m, wfb (sha512 m)) -> (forall m l, wfb (shake256 m l)) ->
+  forall hk P, hashes_wfb (mk_hashes sha256 sha512 shake256 hmac256 hmac512 hk P).
+Proof.
+  intros W1 W2 W3 hk P. destruct hk; constructor; intros; cbn [mk_hashes hH hTl];
+    unfold shakeF, sha2C1F, sha2C35H; auto using wfb_firstn.
+Qed.
+
+(* same key, same message, same R, different accepted signature: located switch or collision,
+   for the twelve sets as instantiated by hash.go, from laws of the stdlib primitives only *)
+Lemma twelve_sets_modified_signature :
+  forall (sha256 sha512 : bytes -> bytes) (shake256 : bytes -> nat -> bytes) (hmac256 hmac512 : bytes -> bytes -> bytes),
+    (forall m, length (sha256 m) = 32%nat) -> (forall m, length (sha512 m) = 64%nat) ->
+    (forall m l, length (shake256 m l) = l) ->
+    (forall k m, length (hmac256 k m) = 32%nat) -> (forall k m, length (hmac512 k m) = 64%nat) ->
+    (forall m, wfb (sha256 m)) -> (forall m, wfb (sha512 m)) -> (forall m l, wfb (shake256 m l)) ->
+  forall s, In s all_sets ->
+    let P := fst s in
+    let HS := mk_hashes sha256 sha512 shake256 hmac256 hmac512 (snd s) P in
+  forall pkSeed pkRoot msg sig sig',
+    verifyInternal P HS pkSeed pkRoot msg sig = true -> verifyInternal P HS pkSeed pkRoot msg sig' = true ->
+    firstn (p_n P) sig = firstn (p_n P) sig' -> sig <> sig' ->
+    sig_switch P HS pkSeed pkRoot msg sig sig' = true \/ th_collision HS pkSeed.
+Proof.
+  intros sha256 sha512 shake256 hmac256 hmac512 H1 H2 H3 H4 H5 W1 W2 W3 s Hs P HS.
+  destruct (all_sets_wf s Hs) as [PW Hn].
+  exact (modified_signature_accepted P HS (mk_hashes_ok _ _ _ _ _ H1 H2 H3 H4 H5 (snd s) P Hn) PW
+           (mk_hashes_wfb _ _ _ _ _ W1 W2 W3 (snd s) P) (all_sets_digits_wf s Hs)).
+Qed.
